@@ -924,14 +924,14 @@ class C05(fw.Check):
         if any(value_conforms(v, d) for v in p.values):
             return
         want = self.snap(p)
-        if p.parent is None:
-            p.parent = odml.Section("s", "t")
-        sec = p.parent
-        if sec.link is not None:
-            return                 # what is written for a linked Section is the business of C12
-        if sec.parent is None:
-            odml.Document().append(sec)
-        doc = sec.document
+        # The document written holds nothing but a copy of the Property (copy.copy semantics, no
+        # re-conversion of the values): what else the history put around the Property - a merge source
+        # with text XML cannot represent, a linked Section - is not this clause's business.
+        doc = odml.Document()
+        sec = odml.Section("s", "t", parent=doc)
+        sec.append(p.clone(keep_id=True))
+        if self.snap(sec.properties[p.name]) != want:
+            return                 # the copy differs: C11's business, nothing to say here
         for fmt in ("XML", "JSON", "YAML"):
             try:
                 text = ODMLWriter(fmt).to_string(doc)
